@@ -265,8 +265,19 @@ func (ex *Exec) paramTypes(fn *ssa.Function, cc *ssa.CallCommon) map[string]type
 		}
 	}
 	if fn != nil && len(fn.Params) > 0 {
-		for _, p := range fn.Params {
+		var oldNames []string
+		if fc := ex.contractFor(fn); fc != nil {
+			if sg := ex.v.lockSigs[fc.Full()]; sg != nil && len(sg.Params) >= len(fn.Params) {
+				oldNames = sg.Params
+			}
+		}
+		for i, p := range fn.Params {
 			env[p.Name()] = p.Type()
+			if oldNames != nil && oldNames[i] != "" {
+				if _, clash := env[oldNames[i]]; !clash {
+					env[oldNames[i]] = p.Type()
+				}
+			}
 		}
 		return env
 	}
@@ -758,11 +769,22 @@ func (ex *Exec) applyContract(fc *FuncContract, fn *ssa.Function, cc *ssa.CallCo
 
 func (ex *Exec) bindParams(env *Env, fn *ssa.Function, cc *ssa.CallCommon, recv Val, args []Val) {
 	if fn != nil && len(fn.Params) == len(args) && len(fn.Params) > 0 {
+		var oldNames []string
+		if fc := ex.contractFor(fn); fc != nil {
+			if sg := ex.v.lockSigs[fc.Full()]; sg != nil && len(sg.Params) >= len(fn.Params) {
+				oldNames = sg.Params
+			}
+		}
 		for i, p := range fn.Params {
 			a := args[i]
 			a.Typ = p.Type()
 			env.vars[p.Name()] = a
 			env.vars[fmt.Sprintf("arg%d", i)] = a
+			if oldNames != nil && oldNames[i] != p.Name() && oldNames[i] != "" {
+				if _, clash := env.vars[oldNames[i]]; !clash {
+					env.vars[oldNames[i]] = a // the parameter was renamed since the reference tree
+				}
+			}
 		}
 		return
 	}
